@@ -14,6 +14,7 @@ import (
 type c18stage struct {
 	Name, Task, Pipeline string
 	Deps                 []string
+	Unnamed              bool // no `name:` in the file; the stage is called after its task / pipeline
 }
 type c18cfg struct {
 	Tasks     []string
@@ -45,7 +46,10 @@ func (g c18cfg) yaml() string {
 	for _, p := range g.Order {
 		var st []interface{}
 		for _, s := range g.Pipelines[p] {
-			o := gen.OM{{K: "name", V: s.Name}}
+			o := gen.OM{}
+			if !s.Unnamed {
+				o.Set("name", s.Name)
+			}
 			if s.Task != "" {
 				o.Set("task", s.Task)
 			}
@@ -97,6 +101,26 @@ func genC18(r *h.Rand) c18cfg {
 				}
 			}
 			g.Pipelines[name] = append(g.Pipelines[name], s)
+		}
+		// some stages carry no explicit name (allowed when the derived name is unique and nothing depends on the old name)
+		used := map[string]bool{}
+		for _, s := range g.Pipelines[name] {
+			used[s.Name] = true
+			for _, d := range s.Deps {
+				used["dep:"+d] = true
+			}
+		}
+		for k := range g.Pipelines[name] {
+			s := &g.Pipelines[name][k]
+			derived := s.Task
+			if derived == "" {
+				derived = s.Pipeline
+			}
+			if r.Chance(30) && !used[derived] && !used["dep:"+s.Name] {
+				delete(used, s.Name)
+				s.Name, s.Unnamed = derived, true
+				used[derived] = true
+			}
 		}
 	}
 	r.Shuffle(g.Order) // declaration order of pipelines is arbitrary (links may point forward)
@@ -162,6 +186,47 @@ func c18mutants(g c18cfg) []c18mut {
 		m := g.clone()
 		m.Watchers[w] = "ghost-task"
 		ms = append(ms, c18mut{"watcher-task", m, w + ".task"})
+	}
+	// duplicate names that arise from derived names: two unnamed stages of the same task / pipeline,
+	// and an explicit name equal to a later unnamed stage's task
+	for _, p := range g.Order {
+		st := g.Pipelines[p]
+		if len(st) < 2 {
+			continue
+		}
+		for i := 1; i < len(st); i++ {
+			if st[i].Task == "" {
+				continue
+			}
+			m := g.clone()
+			m.Pipelines[p][0] = c18stage{Name: st[i].Task, Task: st[i].Task, Unnamed: true}
+			m.Pipelines[p][i] = c18stage{Name: st[i].Task, Task: st[i].Task, Unnamed: true}
+			for k := range m.Pipelines[p] {
+				m.Pipelines[p][k].Deps = nil
+			}
+			ms = append(ms, c18mut{"duplicate-stage", m, fmt.Sprintf("%s[0] and %s[%d] both unnamed stages of task %s", p, p, i, st[i].Task)})
+			m2 := g.clone()
+			m2.Pipelines[p][0] = c18stage{Name: st[i].Task, Task: g.Tasks[0]}
+			m2.Pipelines[p][i] = c18stage{Name: st[i].Task, Task: st[i].Task, Unnamed: true}
+			for k := range m2.Pipelines[p] {
+				m2.Pipelines[p][k].Deps = nil
+			}
+			ms = append(ms, c18mut{"duplicate-stage", m2, fmt.Sprintf("%s[0] named %s explicitly, %s[%d] unnamed stage of task %s", p, st[i].Task, p, i, st[i].Task)})
+			break
+		}
+	}
+	// inclusion loops that an outside pipeline leads into
+	for L := 1; L <= 2; L++ {
+		m := g.clone()
+		for k := 0; k < L; k++ {
+			name := fmt.Sprintf("loop%d", k)
+			m.Order = append(m.Order, name)
+			m.Pipelines[name] = []c18stage{{Name: "a", Task: g.Tasks[0]}, {Name: "b", Pipeline: fmt.Sprintf("loop%d", (k+1)%L), Deps: []string{"a"}}}
+		}
+		m.Order = append(m.Order, "entry", "entry2")
+		m.Pipelines["entry"] = []c18stage{{Name: "x", Pipeline: "loop0"}}
+		m.Pipelines["entry2"] = []c18stage{{Name: "y", Pipeline: "entry"}}
+		ms = append(ms, c18mut{fmt.Sprintf("inclusion-cycle-%d", L), m, fmt.Sprintf("entry2->entry->loop0..loop%d->loop0", L-1)})
 	}
 	// cycles of length 2 and 3 over fresh pipelines
 	for L := 2; L <= 3; L++ {
